@@ -40,22 +40,20 @@ theorem cS_labels (mod : String) : ∀ (n : Nat),
         cases e
         case assign asp op l r =>
           cases op <;> cases l <;> try exact LblInv.nil mod env.lm
-          · rename_i g _ _
-            cases g
-            · simp only [cS, definedLabels_append,
-                definedLabels_instr _ _ _ (rfl : isLabel (Instr.setVar _ : SInstr) = false),
-                definedLabels_nil, List.append_nil]
-              exact hE _ r env.lm
-            · exact LblInv.nil mod env.lm
-          · rename_i o _ _ _ g _ _
-            cases g
-            · have : definedLabels ((arithI o).map (·, asp)) = [] := by cases o <;> rfl
-              simp only [cS, definedLabels_append, this,
-                definedLabels_instr _ _ _ (rfl : isLabel (Instr.setVar _ : SInstr) = false),
-                definedLabels_instr _ _ _ (rfl : isLabel (Instr.getVar _ : SInstr) = false),
-                definedLabels_nil, List.append_nil, List.nil_append]
-              exact hE _ r env.lm
-            · exact LblInv.nil mod env.lm
+          · rename_i g _ sg
+            cases g <;> cases sg <;> try exact LblInv.nil mod env.lm
+            simp only [cS, definedLabels_append,
+              definedLabels_instr _ _ _ (rfl : isLabel (Instr.setVar _ : SInstr) = false),
+              definedLabels_nil, List.append_nil]
+            exact hE _ r env.lm
+          · rename_i o _ _ _ g _ sg
+            cases g <;> cases sg <;> try exact LblInv.nil mod env.lm
+            have : definedLabels ((arithI o).map (·, asp)) = [] := by cases o <;> rfl
+            simp only [cS, definedLabels_append, this,
+              definedLabels_instr _ _ _ (rfl : isLabel (Instr.setVar _ : SInstr) = false),
+              definedLabels_instr _ _ _ (rfl : isLabel (Instr.getVar _ : SInstr) = false),
+              definedLabels_nil, List.append_nil, List.nil_append]
+            exact hE _ r env.lm
         case ifE isp ty c t el =>
           cases el with
           | some eb =>
